@@ -133,6 +133,7 @@ static int in_class(int ch, void *par)
 	if (!strcmp(cls, "notspace")) return isspace(ch) ? 0 : 1;
 	if (!strcmp(cls, "quote")) return (ch == '"' || ch == '\'') ? 1 : 0;
 	if (!strcmp(cls, "zero")) return ch == 0;
+	if (!strcmp(cls, "high")) return ch >= 0x80;
 	return 0;
 }
 
